@@ -113,6 +113,10 @@ SIGNED = {'entry': 'solve_t', 'scale': 2.0 ** 1023, 'span': 'range', 'tolmode': 
 # an object with a history: solved before, every variable re-bound by a sequence assignment
 HISTORY = {'entry': 'solve_t', 'scale': 1.0, 'span': 'str', 'tolmode': 'eq', 'flavour': 0, 'history': True}
 HISTORY2 = {'entry': 'solve', 'scale': 0.25, 'span': 'range', 'tolmode': 'ulp', 'flavour': 1, 'history': True}
+# the non-check endogenous variable becomes NaN in every pass (only check variables are the solver's business)
+WNAN = {'entry': 'solve_period', 'scale': 1.0, 'span': 'range', 'tolmode': 'eq', 'flavour': 0, 'wnan': True}
+# warnings raised by the equation's own helper (UserWarning) rather than by NumPy arithmetic
+USERWARN = {'entry': 'solve_t', 'scale': 1.0, 'span': 'range', 'tolmode': 'eq', 'flavour': 2}
 # values and tolerance so small that their squares underflow to zero
 TINY = {'entry': 'solve_t', 'scale': 2.0 ** -600, 'span': 'str', 'tolmode': 'eq', 'flavour': 1}
 
